@@ -694,3 +694,19 @@ free piece:
 +--------+-------+-------------+-----------------------------------+
 ```
 */
+
+/// verification hook (layout-probe): the slot decision of `write_piece` for a key of `key_len`
+/// bytes with the given offsets, as (encoded size-field bytes, piece bytes, rounded slot size).
+#[cfg(abyssiniandb_verif)]
+pub(crate) fn verif_key_slot(key_len: usize, value_offset: u64, next_offset: u64) -> (u32, u32, u32) {
+    use super::super::DbBytes;
+    let piece_mgr = PieceMgr::new(&REC_SIZE_FREE_OFFSET, &REC_SIZE_ARY);
+    let piece = KeyPiece::<DbBytes>::with_key_value_next(
+        DbBytes::from(vec![0u8; key_len]),
+        ValuePieceOffset::new(value_offset),
+        KeyPieceOffset::new(next_offset),
+    );
+    let (encorded_piece_len, piece_len, _key_len) = piece.encoded_piece_size();
+    let slot = piece_mgr.roundup(KeyPieceSize::new(encorded_piece_len + piece_len));
+    (encorded_piece_len, piece_len, slot.as_value())
+}
